@@ -55,7 +55,16 @@ def run(ctx):
     copies = 0
     ctx.clause("an interface is excluded exactly when both of its end junctions are flagged (three copies)")
     removes = [e for e in s.calls("remove")]
-    if not removes:
+    # deletion BY POSITION inside the walk over the full list: the positions are those of the full list, but every deletion shortens the
+    # list they are applied to, so from the second excluded interface on a neighbour is deleted instead
+    for e in [x for x in s.events if x.kind == "del" and x.loops() and x.key is not None]:
+        ro = rules.roles(e.loops()[-1])
+        if ro.pos is not None and e.key == ro.pos:
+            ctx.violation("ITER", f"{f.qualname} / ITER / excluded interfaces are removed by value, not by their position in the full list", ctx.where(f, e.node),
+                          f"`{f.module.line(e.node.lineno)[:70].strip()}` deletes at the position the interface has in the FULL list from a list that has already been "
+                          f"shortened: with two or more excluded interfaces the wrong columns disappear (or the index runs off the end)")
+            copies += 1
+    if not removes and not copies:
         raise AnalysisError("get_angle_limited_edges: no removal from the interface list found - re-bind the anchor")
     for e in removes:
         loc = interface_loop(e)
